@@ -32,6 +32,7 @@
 #define __TASMANIAN_SPARSE_GRID_WAVELET_HPP
 
 #include "tsgRuleWavelet.hpp"
+#include <mutex>
 
 namespace TasGrid{
 
@@ -102,6 +103,7 @@ public:
 protected:
     double evalBasis(const int p[], const double x[]) const;
     void buildInterpolationMatrix() const;
+    void checkInterpolationMatrix(int num_points) const; // thread-safe, calls buildInterpolationMatrix() when the matrix is missing or out of date
     void recomputeCoefficients();
     void solveTransposed(double w[]) const;
     double evalIntegral(const int p[]) const;
@@ -128,6 +130,9 @@ private:
     Data2D<double> coefficients; // a.k.a., surpluses
 
     mutable TasSparse::WaveletBasisMatrix inter_matrix;
+    // inter_matrix is (re)built lazily inside const methods, the lock makes the check-and-build step safe for concurrent const calls
+    // the solves that follow only read the matrix and are done outside of the lock
+    mutable std::mutex inter_matrix_lock;
 
     std::unique_ptr<SimpleConstructData> dynamic_values;
 
